@@ -56,6 +56,8 @@ def q(v):
 def grid_polygon(rng, W, H, allow_outside=True):
     """1-3 subpaths with quarter-grid vertices, around the surface"""
     ops = []
+    if rng.random() < 0.05:
+        ops.append("Z")
     for _ in range(rng.choice([1, 1, 1, 2, 3])):
         n = rng.randrange(3, 7)
         lo, hix, hiy = (-2 * 4, (W + 2) * 4, (H + 2) * 4) if allow_outside and rng.random() < 0.5 else (0, W * 4, H * 4)
@@ -67,7 +69,7 @@ def grid_polygon(rng, W, H, allow_outside=True):
             if rng.random() < 0.5:
                 x0, y0, x1, y1 = map(round, (x0, y0, x1, y1))
             pts = [(x0, y0), (x1, y0), (x1, y1), (x0, y1)]
-        ops.append("M " + fpt(*pts[0]))
+        ops.append(("M " if rng.random() < 0.93 else "L ") + fpt(*pts[0]))
         for p in pts[1:]:
             ops.append("L " + fpt(*p))
         if rng.random() < 0.6:
@@ -79,8 +81,10 @@ def curvy_path(rng, W, H):
     ops = []
     def P():
         return (q(rng.randrange(-8, (W + 2) * 4)), q(rng.randrange(-8, (H + 2) * 4)))
+    if rng.random() < 0.08:
+        ops.append("Z")                      # a path may start with Close (PathBuilder::close() first)
     for _ in range(rng.choice([1, 1, 2])):
-        if rng.random() < 0.9:
+        if rng.random() < 0.85:
             ops.append("M " + fpt(*P()))
         for _ in range(rng.randrange(1, 5)):
             c = rng.random()
@@ -224,9 +228,55 @@ def draw_op(rng, W, H, cfg):
                                                  FB(x), FB(y), image_tokens(rng), opts())
 
 
+def structured_ops(rng, W, H, cfg):
+    """clip rect at an offset / clip path / transform in any order, then 0-2 nested layers, 1-3 draws, pops:
+    the combinations that index arithmetic bugs need (layer origin != 0 under a clip path, nested layers...)"""
+    ops, pops = [], []
+    pre = []
+    if rng.random() < 0.75:
+        x0, y0 = rng.randrange(0, max(1, W // 2) + 1), rng.randrange(0, max(1, H // 2) + 1)
+        pre.append(("cliprect %d %d %d %d" % (x0, y0, x0 + rng.randrange(1, W + 2), y0 + rng.randrange(1, H + 2)), "popclip"))
+    if rng.random() < 0.7:
+        pre.append(("clippath " + rand_path(rng, W, H, 0.2), "popclip"))
+    if rng.random() < 0.3:
+        pre.append(("cliprect %d %d %d %d" % rand_rect(rng, W, H), "popclip"))
+    if rng.random() < 0.35:
+        pre.append(("xf " + xf_tokens(rand_xf(rng)), None))
+    rng.shuffle(pre)
+    for o, pop in pre:
+        ops.append(o)
+        if pop:
+            pops.append(pop)
+    if rng.random() < 0.3:
+        ops.append(draw_op(rng, W, H, cfg))
+    nl = rng.choice([0, 1, 1, 1, 2])
+    for _ in range(nl):
+        ops.append("layer %d %d" % (gen.alpha_bits(rng), 3 if rng.random() < 0.4 else rng.randrange(gen.N_MODES)))
+        pops.append("poplayer")
+        if rng.random() < 0.3:
+            ops.append("clippath " + rand_path(rng, W, H, 0.1)); pops.append("popclip")
+    for _ in range(rng.randrange(1, 4)):
+        ops.append(draw_op(rng, W, H, cfg))
+    # pop in reverse order, sometimes popping a clip before the layer that was pushed under it
+    pops.reverse()
+    if len(pops) >= 2 and rng.random() < 0.3:
+        i = rng.randrange(len(pops) - 1)
+        pops[i], pops[i + 1] = pops[i + 1], pops[i]
+    for p_ in pops:
+        ops.append(p_)
+        if rng.random() < 0.25:
+            ops.append(draw_op(rng, W, H, cfg))
+    return ops
+
+
 def rand_scene(rng, cid, cfg=None):
     """cfg keys: maxdim, nops, p_clip, p_layer, p_xf, draw_kinds, sources, modes, aa, curves, init ('zero'|'random')"""
     cfg = cfg or {}
+    if rng.random() < cfg.get("p_structured", 0.45):
+        maxdim = cfg.get("maxdim", 12)
+        W, H = rng.randrange(2, maxdim + 1), rng.randrange(2, maxdim + 1)
+        px = [0] * (W * H) if cfg.get("init", "random") == "zero" else [gen.premul_pixel(rng) for _ in range(W * H)]
+        return "scene %d %d %d I %s ; %s" % (cid, W, H, " ".join(map(gen.hexpx, px)), " ; ".join(structured_ops(rng, W, H, cfg)))
     maxdim = cfg.get("maxdim", 12)
     W, H = rng.randrange(1, maxdim + 1), rng.randrange(1, maxdim + 1)
     if rng.random() < cfg.get("p_zero_dim", 0.02):
